@@ -62,6 +62,15 @@ static SCN sc;
 static TLS_CONNECT *cc, *sv;
 static volatile int c_fin, s_fin; static int c_rc, s_rc; static volatile pid_t c_tid, s_tid;
 
+// link-time interposition of send(): records written by an endpoint are logged in that endpoint's own program order
+// (needed by C18: what an endpoint emits after a failed entropy draw); the proxy's own sends are not logged
+static __thread const char *ep_who;
+ssize_t send(int fd, const void *buf, size_t n, int flags)
+{
+	if (ep_who && sc.drawlog && n) { vt_begin("Sent"); vt_str("who", ep_who); vt_int("rtype", ((const uint8_t *)buf)[0]); vt_int("n", (long)n); vt_end(); }
+	return syscall(SYS_sendto, fd, buf, n, flags, NULL, 0);
+}
+
 static int is13(void) { return sc.proto == TLS_protocol_tls13; }
 static int xsend(TLS_CONNECT *c, const uint8_t *d, size_t n, size_t *s) { return is13() ? tls13_send(c, d, n, s) : tls_send(c, d, n, s); }
 static int xrecv(TLS_CONNECT *c, uint8_t *d, size_t n, size_t *s) { return is13() ? tls13_recv(c, d, n, s) : tls_recv(c, d, n, s); }
@@ -129,8 +138,9 @@ static void *endpoint(void *arg)
 	TLS_CONNECT *conn = is_client ? cc : sv;
 	const char *who = is_client ? "C" : "S";
 	if (is_client) c_tid = (pid_t)syscall(SYS_gettid); else s_tid = (pid_t)syscall(SYS_gettid);
+	ep_who = who;
 	ent_tag(who); ent_seed(is_client ? sc.cseed : sc.sseed); ent_fail_at(is_client ? sc.cfail : sc.sfail);
-	ent_log(sc.drawlog || (is_client ? sc.cfail : sc.sfail));
+	ent_log(sc.drawlog);
 	int rc = tls_do_handshake(conn);
 	vt_begin("HsRet"); vt_str("who", who); vt_int("rc", rc); vt_int("draws", ent_draws()); vt_int("entfail", ent_failed());
 	if (rc == 1) {
